@@ -302,9 +302,12 @@ func thrName(t int64) string {
 }
 
 type runner struct {
-	base  string
-	cache map[string]recovered
-	p     *vr.Partial
+	base      string
+	cache     map[string]recovered
+	p         *vr.Partial
+	curImg    *crashfs.Image
+	curRec    *recovered
+	confirmed map[string]bool
 }
 
 func (rn *runner) recoverCached(im *crashfs.Image) recovered {
@@ -321,13 +324,32 @@ func (rn *runner) recoverCached(im *crashfs.Image) recovered {
 	return r
 }
 
+// confirm re-recovers a failing image from a fresh copy and demands the identical result.
+func (rn *runner) confirm(im *crashfs.Image, first recovered) {
+	for i := 0; i < 2; i++ {
+		again := recoverImage(filepath.Join(rn.base, "case"), im)
+		if again.Err != first.Err || again.Post != first.Post || again.State.String() != first.State.String() {
+			vr.Fatalf("non-deterministic recovery of image %s", im.Describe())
+		}
+	}
+}
+
 func (rn *runner) viol(h Hist, sig, desc string) {
+	if rn.curImg != nil && !rn.confirmed[sig] {
+		// first occurrence of a signature in this worker: re-run from scratch, demand the same result
+		if rn.confirmed == nil {
+			rn.confirmed = map[string]bool{}
+		}
+		rn.confirmed[sig] = true
+		rn.confirm(rn.curImg, *rn.curRec)
+	}
 	blob, _ := json.Marshal(h)
 	rn.p.Viol(sig, "history "+h.String()+": "+desc, string(blob))
 }
 
 func (rn *runner) run(h Hist, byName map[string]opDef) {
 	p := rn.p
+	rn.curImg, rn.curRec = nil, nil
 	dir := filepath.Join(rn.base, "main")
 	sdir := filepath.Join(rn.base, "shadow")
 	_ = os.RemoveAll(dir)
@@ -423,6 +445,7 @@ func (rn *runner) run(h Hist, byName map[string]opDef) {
 		p.Add("points", 1)
 		p.Mark("point_classes", pt.Class())
 		rec := rn.recoverCached(pt.Image)
+		rn.curImg, rn.curRec = pt.Image, &rec
 		opName := h.Ops[k]
 		done := pt.Op == "mark"
 		a, b := lo[k], hi[k]
